@@ -1141,6 +1141,41 @@ def check_koszul_sign(facts, rep):
     except Exception as ex:
         rep.indet('E8.F11: connect_edges: %s' % str(ex)[:120])
         return
+    if not fam:
+        # the two families as `for` loops over keys_out_from(..) with add_edge in the body (possibly through a small helper)
+        try:
+            for p in SymEx(outer, havoc_loops=True, max_paths=5000).run():
+                if p.end != 'backedge':
+                    continue
+                its = {}
+                for (fid_, bb_, l_), v_ in p.state.loop_entry.items():
+                    m0 = re.match(r'into_iter\(keys_out_from\(arg1\.\^(left|right), arg2\.([01])\)\)$', dk(v_))
+                    if fid_ == 0 and m0:
+                        its[l_] = (m0.group(1), m0.group(2))
+                for e in p.calls():
+                    if e.name.split('::')[-1] == 'add_edge' and len(e.args) == 4:
+                        comps_ = [dk(a) for a in e.args[1:]]
+                        used = {l_ for l_ in its if any(re.search(r'next\(mut _%d\)\.Some\.0' % l_, c) for c in comps_)}
+                        if len(used) != 1:
+                            continue
+                        l_ = next(iter(used))
+                        comps_ = [re.sub(r'next\(mut _%d\)\.Some\.0' % l_, 'ITEM', c) for c in comps_]
+                        variants.setdefault(its[l_], [])
+                        if comps_ not in variants[its[l_]]:
+                            variants[its[l_]].append(comps_)
+                        if its[l_] not in fam or ('connected(' in comps_[-1] and 'connected(' not in fam[its[l_]][-1]) or ('from_sign(' in comps_[-1] and 'from_sign(' not in fam[its[l_]][-1]):
+                            fam[its[l_]] = comps_
+        except Exception as ex:
+            rep.indet('E8.F11: connect_edges: %s' % str(ex)[:120])
+            return
+        # TngKey::weight() is the weight of its state (only then `weight(k0)` may stand for `weight(k0.state)`)
+        wk = [b_ for k_, b_ in facts.bodies.items() if k_.endswith('TngKey::weight')]
+        wk_ok = len(wk) == 1 and {dk(q.ret) for q in SymEx(wk[0]).run() if q.end == 'return'} == {'weight(arg1.state)'}
+        if wk_ok:
+            for key_ in list(fam):
+                fam[key_] = [re.sub(r'weight\(arg2\.([01])\)', r'weight(arg2.\1.state)', c) for c in fam[key_]]
+            for key_ in list(variants):
+                variants[key_] = [[re.sub(r'weight\(arg2\.([01])\)', r'weight(arg2.\1.state)', c) for c in cs] for cs in variants[key_]]
     if len(fam) != 2:
         rep.indet('E8.F11: edge families of connect_edges outside the recognised fragment: %s' % fam)
         return
